@@ -46,7 +46,18 @@ type kvStore interface {
 var adversarialKeys = []string{"\x00", "a/b", "../../escaped", "..", ".", ".temp/x", "/", "//", "a\x00b", "\xff\xfe", "k", "ab", "abc", "abcd", "abcde", "abcdef", "abcdefg",
 	"C:\\x", "~", " ", "\n", strings.Repeat("L", 100), strings.Repeat("\x00", 5)}
 
+// longKeys: keys whose escaped (base32) name is right at the file-name length limit of common filesystems (255), one
+// below, and extensions of those (the escaped name of one is a proper prefix of the other's).  A store may refuse such
+// a key with an error; it must not store it in a way that changes what other keys answer.
+var longKeys = func() []string {
+	base := strings.Repeat("A", 159) // 159 bytes ↦ 255 base32 characters
+	return []string{base[:158], base, base + "\x01", base + "\x01\x02", base + "\x1f" + strings.Repeat("B", 40), base + "A", strings.Repeat("A", 400)}
+}()
+
 func genKey(r *core.Rand) string {
+	if r.Chance(1, 10) {
+		return longKeys[r.Intn(len(longKeys))]
+	}
 	switch r.Intn(5) {
 	case 0:
 		return adversarialKeys[r.Intn(len(adversarialKeys))]
@@ -154,6 +165,12 @@ func c17History(c *core.Ctx, r *core.Rand, idx int) error {
 	ctx := context.Background()
 	model := map[string][]byte{}
 	var kvOps, implOut, hist []string
+	type heldPeek struct {
+		key        string
+		view, snap []byte
+		cl         io.Closer
+	}
+	var held []heldPeek
 	var keys []string
 	before := map[string]string{}
 	if env.canary != "" {
@@ -259,11 +276,31 @@ func c17History(c *core.Ctx, r *core.Rand, idx int) error {
 				}
 			case "Peek":
 				var cl io.Closer
-				if got, cl, gerr = storage.Peek(ctx, env.store, key); gerr == nil {
-					got = append([]byte{}, got...)
-					if cl != nil {
+				var view []byte
+				if view, cl, gerr = storage.Peek(ctx, env.store, key); gerr == nil {
+					got = append([]byte{}, view...)
+					if r.Chance(1, 2) {
+						// keep the peek OPEN across later operations: until it is closed its bytes must stay what they are
+						held = append(held, heldPeek{key: key, view: view, snap: got, cl: cl})
+					} else if cl != nil {
 						cl.Close()
 					}
+				}
+			}
+			// open peeks are re-read after every read operation, and closed at random
+			for i := 0; i < len(held); i++ {
+				h := held[i]
+				if !bytes.Equal(h.view, h.snap) {
+					fail("C17/open-peek-changed", hx(h.view), hx(h.snap), "the bytes of a Peek that is still open changed during later operations (key "+hx([]byte(h.key))+")")
+					h.snap = append([]byte{}, h.view...)
+					held[i] = h
+				}
+				if r.Chance(1, 3) {
+					if h.cl != nil {
+						h.cl.Close()
+					}
+					held = append(held[:i], held[i+1:]...)
+					i--
 				}
 			}
 			want, have := model[key]
@@ -285,6 +322,42 @@ func c17History(c *core.Ctx, r *core.Rand, idx int) error {
 				implOut = append(implOut, "none")
 			}
 			kvOps = append(kvOps, "G"+hx([]byte(key)))
+		}
+	}
+	// a burst of overlapping peeks: several open at once, opened and closed in every order
+	if len(keys) >= 1 {
+		for n := 4 + r.Intn(8); n > 0; n-- {
+			if len(held) > 0 && r.Chance(1, 3) {
+				i := r.Intn(len(held))
+				if held[i].cl != nil {
+					held[i].cl.Close()
+				}
+				held = append(held[:i], held[i+1:]...)
+				hist = append(hist, "ClosePeek")
+			} else {
+				key := keys[r.Intn(len(keys))]
+				if env.base != "" && key == "" {
+					continue
+				}
+				view, cl, err := storage.Peek(ctx, env.store, key)
+				hist = append(hist, "PeekHeld("+hx([]byte(key))+")")
+				if err != nil || !bytes.Equal(view, model[key]) {
+					fail("C17/get-wrong", fmt.Sprint(hx(view), err), hx(model[key]), "Peek (held) does not return the stored bytes")
+					continue
+				}
+				held = append(held, heldPeek{key: key, view: view, snap: append([]byte{}, view...), cl: cl})
+			}
+			for i := range held {
+				if !bytes.Equal(held[i].view, held[i].snap) {
+					fail("C17/open-peek-changed", hx(held[i].view), hx(held[i].snap), "the bytes of a Peek that is still open changed during later operations (key "+hx([]byte(held[i].key))+")")
+					held[i].snap = append([]byte{}, held[i].view...)
+				}
+			}
+		}
+	}
+	for _, h := range held {
+		if h.cl != nil {
+			h.cl.Close()
 		}
 	}
 	// D: the write-once map
@@ -337,9 +410,23 @@ func c17History(c *core.Ctx, r *core.Rand, idx int) error {
 			if p == filepath.Join(baseRel, ".temp") {
 				continue
 			}
+			refused := strings.Contains(strings.Join(hist, " "), "=refused")
 			if strings.HasPrefix(p, filepath.Join(baseRel, ".temp")+string(filepath.Separator)) {
+				if refused {
+					// a put the store REFUSED (a key whose escaped name the filesystem cannot hold) may leave its staging
+					// file behind: inside the base directory, under no key - the property asks for neither more nor less
+					c.Dist("staging-debris-after-refused-put")
+					continue
+				}
 				fail("C17/staging-file-left-behind", p, "no staging files after completed puts", "")
 				continue
+			}
+			if refused && v == "d" && strings.HasPrefix(p, baseRel+string(filepath.Separator)) {
+				// likewise the (empty) shard directory made for a put that was then refused
+				if _, ok := expected[p]; !ok {
+					c.Dist("shard-dir-after-refused-put")
+					continue
+				}
 			}
 			if e, ok := expected[p]; !ok || e != v {
 				fail("C17/fs-unexpected-path", p+" = "+truncateStr(v, 40), "only base/shard(base32(key)) files", "the filesystem store created a path the model does not predict (or with other content)")
